@@ -120,25 +120,38 @@ theorem frame_iff_adequate (deps : Deps) :
 theorem deps_adequate : adequate Gen.MapDeps.deps ∧ 0x2002 ∈ closure Gen.MapDeps.deps 0x0002 := by
   decide +kernel
 
+/-- a fixed copy of `_get_dependencies()` as it stood when this file was written (the generated
+    table `Gen.MapDeps.deps` follows the source; the demonstrations below must not start failing
+    when the source gains a redundant entry, so they are about this copy) -/
+def refDeps : Deps := [
+  (0x0, []), (0x1, [0x2002]), (0x2, [0x1]), (0x3, [0x1, 0x2, 0x1001]), (0x4, [0x1, 0x2]),
+  (0x5, [0x1, 0x2, 0x3]), (0x6, [0x1, 0x2, 0x1001, 0x2000, 0x2003, 0x2005, 0x2006]),
+  (0x7, [0x1, 0x5, 0x8]), (0x8, [0x4, 0x5]), (0x1000, []), (0x1001, [0x2]), (0x1002, [0x1003]),
+  (0x1003, [0x2004]), (0x2000, [0x4, 0x5]), (0x2001, [0x2, 0x2003]), (0x2002, []), (0x2003, [0x1, 0x2]),
+  (0x2004, [0x1, 0x2, 0x3, 0x4, 0x5]), (0x2005, [0x1, 0x2, 0x3, 0x4, 0x5]), (0x2006, [0x4, 0x5, 0x1003]),
+  (0xf000, [])]
+
+theorem refDeps_adequate : adequate refDeps := by decide +kernel
+
 /-- the table with one pair removed -/
 def dropDep (deps : Deps) (t d : Nat) : Deps :=
   deps.map fun e => if e.1 = t then (e.1, e.2.filter (· != d)) else e
 
 /-- dropping a real dependency that no other declared path implies breaks adequacy … -/
 theorem deps_mutants_inadequate :
-    ¬ adequate (dropDep Gen.MapDeps.deps 0x0006 0x2000) ∧      -- CLASS_DEF → CLASS_DATA
-    ¬ adequate (dropDep Gen.MapDeps.deps 0x0001 0x2002) ∧      -- STRING_ID → STRING_DATA
-    ¬ adequate (dropDep Gen.MapDeps.deps 0x0002 0x0001) ∧      -- TYPE_ID → STRING_ID
-    ¬ adequate (dropDep Gen.MapDeps.deps 0x0005 0x0003) ∧      -- METHOD_ID → PROTO_ID
-    ¬ adequate (dropDep Gen.MapDeps.deps 0x0003 0x1001) := by  -- PROTO_ID → TYPE_LIST (read by METHOD_ID)
+    ¬ adequate (dropDep refDeps 0x0006 0x2000) ∧      -- CLASS_DEF → CLASS_DATA
+    ¬ adequate (dropDep refDeps 0x0001 0x2002) ∧      -- STRING_ID → STRING_DATA
+    ¬ adequate (dropDep refDeps 0x0002 0x0001) ∧      -- TYPE_ID → STRING_ID
+    ¬ adequate (dropDep refDeps 0x0005 0x0003) ∧      -- METHOD_ID → PROTO_ID
+    ¬ adequate (dropDep refDeps 0x0003 0x1001) := by  -- PROTO_ID → TYPE_LIST (read by METHOD_ID)
   decide +kernel
 
 /-- … while (CLASS_DEF, TYPE_ID) alone is implied by CLASS_DEF → TYPE_LIST → TYPE_ID -/
-theorem deps_redundant_pair : adequate (dropDep Gen.MapDeps.deps 0x0006 0x0002) := by decide +kernel
+theorem deps_redundant_pair : adequate (dropDep refDeps 0x0006 0x0002) := by decide +kernel
 
 /-- the direct entries alone are not enough: METHOD_ID reads the type lists (parameter string) and
     the string data, which it declares only through PROTO_ID → TYPE_LIST and STRING_ID → STRING_DATA -/
 theorem deps_direct_not_enough :
-    ¬ (∀ T ∈ modelled, ∀ D ∈ reads T, D ∈ direct Gen.MapDeps.deps T) := by decide +kernel
+    ¬ (∀ T ∈ modelled, ∀ D ∈ reads T, D ∈ direct refDeps T) := by decide +kernel
 
 end AgVerif.DexFrame
